@@ -20,6 +20,7 @@ EXPLANATION = (
     'elements remain.  "Highest priority at the linearization point" and the heap arithmetic are NOT decided.')
 EXPLANATION += ' Added after the seeded-change rounds: ' + 'D3 also: every user operation (element assignment / construction, comparator call) inside the aggregator handler closure is inside a try block (violated on the pinned tree for the pop path and the heap maintenance: known findings); D4 also: the sift-down of reheap reads data[] only below mark.'
 EXPLANATION += ' Added in the third session (round-3 seeds and the findings they led to): ' + 'D2 also: an operation is not touched any more once its status has been published (the link to the next operation is read before).'
+EXPLANATION += ' Added later in the fourth round: ' + "D5: sibling agreement with the copy constructor - every function that takes `data` over from another queue takes mark, my_size and my_compare as well, and a function that moves `data` out of its source resets the source's mark and my_size (helpers called on the source are followed)."
 ASSUMPTIONS = ['instantiations: concurrent_priority_queue<int>, <string>']
 ND = ['a successful try_pop returns a highest-priority element at its linearization point', 'heap arithmetic (heapify / reheap)']
 
@@ -29,6 +30,7 @@ def run(facts, rep):
     d2_complete(facts, rep)
     d3_exceptions(facts, rep)
     d4_heap(facts, rep)
+    d5_takeover_is_complete(facts, rep)
 
 
 def ops_on(fn, member, kinds=None):
@@ -300,3 +302,92 @@ def sift_bound(facts, rep, fns, clause, is_access, what):
                    ln=node['ln'], key_extra='%s' % node['ln'])
         if nacc < 3:
             raise AnalysisBroken('%s: only %d element reads found inside the sift-down loop' % (fn.p, nacc))
+
+
+def d5_takeover_is_complete(facts, rep):
+    """The state of a concurrent_priority_queue is the quadruple (data, mark, my_size, my_compare): data is a heap ORDERED BY
+    my_compare up to mark.  Sibling agreement with the copy constructor, which takes all four from its source:
+    (a) every other function that takes `data` over from another queue (copy / move assignment, swap) takes the other three as
+        well - a heap adopted without its comparator is popped in the wrong order as soon as the comparators differ in state;
+    (b) a function that moves `data` out of its source (move constructor, move assignment) leaves the source's mark and my_size
+        in agreement with the now empty vector - otherwise the moved-from queue reports a size it does not have and, reused
+        without clear(), sifts through data[] up to a stale mark (reads past the end of the vector)."""
+    cls = D1N + 'concurrent_priority_queue'
+    ctors = facts.by_p.get(cls + '::(ctor)', [])
+
+    def own_param(f):
+        ps = [p for p in f.d.get('params', []) if 'concurrent_priority_queue' in (p.get('ty') or '')]
+        return ps[0] if ps else None
+    copy = [f for f in ctors if own_param(f) and len(f.d.get('params', [])) == 1 and 'const' in own_param(f)['ty'] and '&&' not in own_param(f)['ty']]
+    if not copy:
+        raise AnalysisBroken('concurrent_priority_queue: copy constructor not found')
+    state = set()
+    for f in copy:
+        pv = own_param(f)['v']
+        for b, i, e in f.iter_elems():
+            if isinstance(e, dict) and 'i' in e and e.get('s', -1) >= 0 and \
+                    any(f.nodes[x].get('k') == 'var' and f.nodes[x].get('v') == pv for x in f.subtree(e['s'])):
+                state.add(e['i'])
+    if not {'data', 'my_compare'} <= state:
+        raise AnalysisBroken('concurrent_priority_queue: the copy constructor takes %s from its source (expected data, mark, my_size, my_compare)' % sorted(state))
+    n = 0
+    for f in sorted(facts.fns.values(), key=lambda g: g.q):
+        if (f.cls or '') != cls or f in copy or not own_param(f):
+            continue
+        pv = own_param(f)['v']
+        rvalue = '&&' in own_param(f)['ty']
+
+        def from_other(root):
+            return root is not None and root >= 0 and any(f.nodes[x].get('k') == 'var' and f.nodes[x].get('v') == pv for x in f.subtree(root))
+        taken, src_written = set(), set()
+        for b, i, e in f.iter_elems():
+            if isinstance(e, dict) and 'i' in e and from_other(e.get('s', -1)):
+                taken.add(e['i'])
+        for pos, s, l, r in assignments(f):
+            lm = f.n(f.strip(l))
+            if lm.get('k') == 'member' and f.n(f.strip(lm.get('base', -1))).get('k') == 'this' and from_other(r):
+                taken.add(lm['n'])
+            if lm.get('k') == 'member' and f.n(f.strip(lm.get('base', -1))).get('v') == pv:
+                src_written.add(lm['n'])
+        for pos, s, node, d in calls(f):
+            nm = (d or {}).get('n')
+            args = list(node.get('a', [])) + ([node['obj']] if node.get('obj', -1) >= 0 else [])
+            mems_this = [f.nodes[x]['n'] for a in args for x in f.subtree(a) if f.nodes[x].get('k') == 'member' and 'fn' not in f.nodes[x] and
+                         f.n(f.strip(f.nodes[x].get('base', -1))).get('k') == 'this']
+            mems_other = [f.nodes[x]['n'] for a in args for x in f.subtree(a) if f.nodes[x].get('k') == 'member' and 'fn' not in f.nodes[x] and
+                          f.n(f.strip(f.nodes[x].get('base', -1))).get('v') == pv]
+            if nm == 'swap' and mems_this and mems_other:
+                taken |= set(mems_this)
+                src_written |= set(mems_other)
+            if nm in ('store', 'exchange') and mems_this and any(from_other(a) for a in node.get('a', [])):
+                taken |= set(mems_this)
+            if nm in ('store', 'exchange') and mems_other and not mems_this:
+                src_written |= set(mems_other)
+            # a helper method called ON the source (other.reset...()): the members of *this it writes are members of the source
+            if node.get('obj', -1) >= 0 and f.n(f.strip(node['obj'])).get('v') == pv:
+                h = facts.fns.get(node.get('fn'))
+                if h is not None and (h.cls or '') == cls:
+                    for p2, s2, l2, r2 in assignments(h):
+                        lm2 = h.n(h.strip(l2))
+                        if lm2.get('k') == 'member' and h.n(h.strip(lm2.get('base', -1))).get('k') == 'this':
+                            src_written.add(lm2['n'])
+                    for p2, o2 in atomic_ops(h):
+                        if o2['kind'] in ('store', 'rmw') and h.n(h.strip(h.n(h.strip(o2['obj'])).get('base', -1))).get('k') == 'this':
+                            src_written.add(last_member(h, o2['obj']))
+        if 'data' not in taken:
+            continue
+        n += 1
+        missing = sorted(state - taken)
+        rep.ob('D5', 'K7', f, 'a function that takes the heap of another queue over takes the whole state (data, mark, my_size, my_compare)',
+               not missing, 'takes data but not %s: the adopted heap is ordered by the comparator of the other queue / the bookkeeping does not '
+               'belong to it - pops come out in the wrong order' % ', '.join(missing), key_extra='takeover|%s' % ('rv' if rvalue else 'lv'))
+        moved = rvalue and any((d or {}).get('n') == 'move' and any(f.nodes[x].get('n') == 'data' for a in node.get('a', []) for x in f.subtree(a))
+                               for pos, s, node, d in calls(f))
+        if moved:
+            left = sorted({'mark', 'my_size'} - src_written)
+            rep.ob('D5', 'K7', f, 'a function that moves the heap out of its source leaves mark and my_size of the source in agreement with it',
+                   not left, 'the source keeps its old %s: size() of the moved-from queue reports elements it does not have, and a reused '
+                   'moved-from queue sifts through data[] up to the stale mark (past the end of the vector)' % ', '.join(left),
+                   key_extra='moved-from|%s' % f.kind)
+    if n < 3:
+        raise AnalysisBroken('concurrent_priority_queue: functions taking `data` over from another queue: %d (expected >= 3)' % n)
